@@ -187,7 +187,7 @@ def _trigger_condition(kind, text, valid):
   return json.dumps(c)
 
 
-def build_doc(placements, dual_rule=False):
+def build_doc(placements, dual_rule=False, attrs_last=False):
   """
   placements: list of (location, text).  Returns {'snap', 'before'}.  Valid formulas go in
   through the user actions that parse them; texts the parser rejects go in through the routes
@@ -238,8 +238,11 @@ def build_doc(placements, dual_rule=False):
               {'tableId': [k[0] for k in res_keys], 'colIds': [k[1] for k in res_keys]}]])
   res = doc.fetch('_grist_ACLResources')
   resid = {(t, c): r for r, t, c in zip(res[2], res[3]['tableId'], res[3]['colIds'])}
-  rules = [{'resource': resid[('*', '*')], 'userAttributes': json.dumps(ua), 'aclFormula': '',
-            'permissionsText': '', 'memo': ''} for ua in USER_ATTRS]
+  attr_rules = [{'resource': resid[('*', '*')], 'userAttributes': json.dumps(ua), 'aclFormula': '',
+                 'permissionsText': '', 'memo': ''} for ua in USER_ATTRS]
+  # attrs_last: the rules defining the user attributes get HIGHER row ids than the rules whose
+  # formulas mention them (user attributes may be added at any time; order is rulePos, not id)
+  rules = [] if attrs_last else list(attr_rules)
   if dual_rule:
     # A rule that both defines a user attribute and carries a formula.
     rules.append({'resource': resid[('T3', 'Y,X')], 'aclFormula': 'user.Attr.X == rec.X',
@@ -253,6 +256,8 @@ def build_doc(placements, dual_rule=False):
       unparsed[len(rules)] = text
     rules.append({'resource': resid[(t, c)], 'aclFormula': text if valid else '',
                   'userAttributes': '', 'permissionsText': '+R-U', 'memo': 'memo rec.X $X X'})
+  if attrs_last:
+    rules.extend(attr_rules)
   n0 = len(doc.fetch('_grist_ACLRules')[2])
   doc.apply([['BulkAddRecord', '_grist_ACLRules', [None] * len(rules),
               {k: [r[k] for r in rules] for k in rules[0]}]])
@@ -678,7 +683,8 @@ def _doc_specs(tier):
   ok_leafs = [f for f in leafs if python_accepts(f)]
   ok_full = [f for f in full if python_accepts(f)]
   broken = [f for f in leafs + full if not python_accepts(f)]
-  specs = [('locations', [(loc, f) for loc in PRIMARY + SECONDARY for f in ok_leafs], True)]
+  specs = [('locations', [(loc, f) for loc in PRIMARY + SECONDARY for f in ok_leafs], True),
+           ('locations-attrs-last', [(loc, f) for loc in PRIMARY + SECONDARY for f in ok_leafs], True)]
   for k in range(0, len(ok_full), CHUNK):
     part = ok_full[k:k + CHUNK]
     specs.append(('formulas-%d' % (k // CHUNK), [(loc, f) for loc in PRIMARY for f in part], False))
@@ -712,7 +718,7 @@ def get_doc(tier, name):
   if (tier, name) not in _DOCS:
     for n, placements, dual in doc_specs(tier):
       if n == name:
-        _DOCS[(tier, name)] = build_doc(placements, dual)
+        _DOCS[(tier, name)] = build_doc(placements, dual, attrs_last=name.endswith('-attrs-last'))
   return _DOCS[(tier, name)]
 
 
